@@ -32,6 +32,11 @@ type fnInfo struct {
 	n     int
 	// per block: index of first non-phi
 	firstNonPhi map[*ssa.BasicBlock]int
+	name        string
+	ext         ExtFn
+	intrinsic   ExtFn
+	isInit      bool
+	needCheck   bool // function of a non-interpreted package: must be pureOK
 }
 
 var fnInfoCache sync.Map // *ssa.Function -> *fnInfo
@@ -41,6 +46,14 @@ func getFnInfo(fn *ssa.Function) *fnInfo {
 		return v.(*fnInfo)
 	}
 	fi := &fnInfo{slots: map[ssa.Value]int32{}, firstNonPhi: map[*ssa.BasicBlock]int{}}
+	fi.name = fn.String()
+	if fn.Parent() == nil {
+		fi.isInit = fn.Synthetic == "package initializer"
+		fi.ext = externals[fi.name]
+		if fn.Pkg != nil && strings.HasPrefix(fn.Name(), "verif") {
+			fi.intrinsic = intrinsics[fn.Name()]
+		}
+	}
 	add := func(v ssa.Value) {
 		if _, ok := fi.slots[v]; !ok {
 			fi.slots[v] = int32(fi.n)
@@ -555,27 +568,26 @@ func call(it *Interp, caller *Frame, callpos token.Pos, fn Value, args []Value) 
 
 func callSSA(it *Interp, caller *Frame, callpos token.Pos, fn *ssa.Function, args []Value, env []Value) Value {
 	fr := &Frame{it: it, caller: caller, fn: fn, callpos: callpos}
+	fr.info = getFnInfo(fn)
 	if fn.Parent() == nil {
-		if fn.Synthetic == "package initializer" {
+		fi := fr.info
+		if fi.isInit {
 			if it.inited[fn.Pkg] || !it.P.InitOK(fn.Pkg.Pkg.Path()) {
 				return nil
 			}
 			it.inited[fn.Pkg] = true
 		} else {
-			name := fn.String()
-			if fn.Pkg != nil && strings.HasPrefix(fn.Name(), "verif") && strings.HasPrefix(fn.Pkg.Pkg.Path(), it.P.ModulePath) {
-				if in := intrinsics[fn.Name()]; in != nil {
-					return in(fr, args)
-				}
+			if fi.intrinsic != nil && strings.HasPrefix(fn.Pkg.Pkg.Path(), it.P.ModulePath) {
+				return fi.intrinsic(fr, args)
 			}
-			if ext := externals[name]; ext != nil {
-				return ext(fr, args)
+			if fi.ext != nil {
+				return fi.ext(fr, args)
 			}
 			if fn.Blocks == nil {
-				panic(abort{st: StUnsupported, msg: "external function without model: " + name})
+				panic(abort{st: StUnsupported, msg: "external function without model: " + fi.name})
 			}
 			if fn.Pkg != nil && !it.P.InitOK(fn.Pkg.Pkg.Path()) && !pureOK(fn) {
-				panic(abort{st: StUnsupported, msg: "function of non-interpreted package without model: " + name})
+				panic(abort{st: StUnsupported, msg: "function of non-interpreted package without model: " + fi.name})
 			}
 		}
 	}
@@ -589,10 +601,9 @@ func callSSA(it *Interp, caller *Frame, callpos token.Pos, fn *ssa.Function, arg
 	saveTop := it.top
 	it.top = fr
 	defer func() { it.depth--; it.top = saveTop }()
-	if it.path.funcs != nil {
-		it.path.funcs[fn.String()] = true
+	if it.path.funcSet != nil {
+		it.path.funcSet[fr.info] = struct{}{}
 	}
-	fr.info = getFnInfo(fn)
 	fr.regs = make([]Value, fr.info.n)
 	fr.block = fn.Blocks[0]
 	for _, l := range fn.Locals {
